@@ -1,5 +1,6 @@
 import Driver.Util
 import Sqfs.Model.MetaReader
+import Sqfs.Model.DataReaderCache
 /-!
 `sqfsmodel c10 [old]` — line-protocol driver for the reader-cache models (stateful: one in-memory file, a set of
 scripted bad ranges, numbered reader objects).  `old` selects the model of the unrepaired code (`fix = false`).
@@ -12,6 +13,10 @@ scripted bad ranges, numbered reader objects).  `old` selects the model of the u
     mr <k> pos                       -> pos <block> <offset>
     mr <k> q <b> <o> <n1,n2,..|->    -> <answer on reader k> || <answer of a fresh reader with k's window>
          answer = seek=<st> reads=<st:hex;...|-> pos=<b>,<o>|-
+    dr <k> new <bs> <meta_start> <loc> <count> <bytes_used> <start:word,..|->   -> st=0
+         (the location arguments are for the harness, which loads the table from the image; the model is handed the entries)
+    dr <k> read <filesz> <blkstart> <fragidx> <fragoff> <w1,..|-> <offset> <size> -> <answer on reader k> || <fresh>
+         answer = ret=<n> data=<hex> | ret=<status>
 -/
 namespace Driver.C10
 open Sqfs.MetaReader
@@ -21,6 +26,7 @@ structure St where
   bytes : Array UInt8 := #[]
   bad : List (Nat × Nat) := []
   mrs : Array (Option MR) := Array.replicate 16 none
+  drs : Array (Option Sqfs.DataReader.DR) := Array.replicate 8 none
 
 def St.file (s : St) : File :=
   { size := s.bytes.size
@@ -53,15 +59,44 @@ def runQuery (fix : Bool) (f : File) (m : MR) (b o : Nat) (ns : List Nat) : Stri
       | none => "-"
     ("seek=0 reads=" ++ rstr ++ " pos=" ++ pstr, m')
 
+def pairList? (s : String) : Option (List (Nat × Nat)) :=
+  if s = "-" then some [] else
+  (s.splitOn ",").mapM (fun p => match p.splitOn ":" with
+    | [a, b] => do let x ← a.toNat?; let y ← b.toNat?; pure (x, y)
+    | _ => none)
+
+def showRead (r : Status × Bytes) : String :=
+  if r.1 ≠ 0 then "ret=" ++ showSt r.1 else "ret=" ++ toString r.2.length ++ " data=" ++ toHexTok r.2
+
+def stepDr (s : St) (k : Nat) (rest : List String) : St × String :=
+  match rest with
+  | ["new", bs, _, _, _, _, ents] => match nat? bs, pairList? ents with
+      | some bs, some tbl => ({ s with drs := s.drs.set! k (some (Sqfs.DataReader.fresh bs tbl)) }, "st=0")
+      | _, _ => (s, "bad-op")
+  | ["read", fsz, bst, fi, fo, ws, off, sz] =>
+    match s.drs.getD k none, nat? fsz, nat? bst, nat? fi, nat? fo, natList? ws, nat? off, nat? sz with
+    | some d, some fsz, some bst, some fi, some fo, some ws, some off, some sz =>
+      let ino : Sqfs.DataReader.Inode := { fileSize := fsz, blocksStart := bst, fragIdx := fi, fragOff := fo, blocks := ws }
+      let kw := s.fix
+      let r := Sqfs.DataReader.read kw s.file toyUnc d ino off sz
+      let r2 := Sqfs.DataReader.read kw s.file toyUnc (Sqfs.DataReader.fresh d.blockSize d.tbl) ino off sz
+      ({ s with drs := s.drs.set! k (some r.2) }, showRead r.1 ++ " || " ++ showRead r2.1)
+    | _, _, _, _, _, _, _, _ => (s, "bad-op")
+  | _ => (s, "bad-op")
+
 def step (s : St) (line : String) : St × String :=
   match words line with
   | ["file", h] => match fromHex h with
-      | some bs => ({ s with bytes := bs.toArray, bad := [], mrs := Array.replicate 16 none }, "ok " ++ toString bs.length)
+      | some bs => ({ s with bytes := bs.toArray, bad := [], mrs := Array.replicate 16 none, drs := Array.replicate 8 none }, "ok " ++ toString bs.length)
       | none => (s, "bad-op")
   | ["bad", a, b] => match nat? a, nat? b with
       | some a, some b => ({ s with bad := (a, b) :: s.bad }, "ok")
       | _, _ => (s, "bad-op")
   | ["badclr"] => ({ s with bad := [] }, "ok")
+  | "dr" :: ks :: rest =>
+    match nat? ks with
+    | some k => if k ≥ s.drs.size then (s, "bad-op") else stepDr s k rest
+    | none => (s, "bad-op")
   | "mr" :: ks :: rest =>
     match nat? ks with
     | none => (s, "bad-op")
